@@ -559,6 +559,90 @@ def _is_cors_ctor(p, f: Func, c: ast.Call) -> bool:
     return isinstance(tgt, Class) and tgt.qual == CORS_CLASS
 
 
+_CONTAINER_DROPS = ('remove', 'pop', 'clear', 'popleft', 'discard', '__delitem__', '__setitem__')
+
+
+def _holds_instance(cfg, cn, an, arg, cmvar, ctor_call):
+    """(held, lacking): does the expression `arg`, evaluated at node `an`, CERTAINLY denote a collection that contains the CORSMiddleware
+    instance constructed at node `cn` - on every path from `cn` to `an`?  Forward must-analysis; fact = name of a local collection that
+    holds the instance.  Generated by ``x = [.., cm, ..]`` / ``(.., cm)`` / ``[*y, cm]``, ``x = y`` / ``list(y)`` / ``tuple(y)`` / ``y + z``
+    of a holding y, ``x += ..`` (keeps what x holds), ``x.append(cm)`` / ``x.insert(i, cm)`` / ``x.extend(<holding>)``; killed by any other
+    binding of x and by an element-dropping method / ``del x[..]`` / ``x[..] = ..``.  A statement left through its exceptional edge has
+    generated nothing.  `lacking` = nodes entered with the fact of `arg` missing (for the witness path)."""
+
+    def is_cm(e):
+        return e is ctor_call or (cmvar is not None and isinstance(e, ast.Name) and e.id == cmvar)
+
+    def holds(e, st):
+        if isinstance(e, ast.Name):
+            return e.id in st
+        if isinstance(e, (ast.List, ast.Tuple, ast.Set)):
+            return any(is_cm(x) or (isinstance(x, ast.Starred) and holds(x.value, st)) for x in e.elts)
+        if isinstance(e, ast.Call) and isinstance(e.func, ast.Name) and e.func.id in ('list', 'tuple') and len(e.args) == 1 and not e.keywords:
+            return holds(e.args[0], st)
+        if isinstance(e, ast.BinOp) and isinstance(e.op, ast.Add):
+            return holds(e.left, st) or holds(e.right, st)
+        if isinstance(e, ast.IfExp):
+            return holds(e.body, st) and holds(e.orelse, st)
+        return False
+
+    def transfer(n, st, label):
+        st = set(st)
+        a = n.ast if n.kind == 'stmt' else None
+        gen = set()
+        keep = set()
+        if isinstance(a, ast.Assign) and len(a.targets) == 1 and isinstance(a.targets[0], ast.Name):
+            if holds(a.value, st):
+                gen.add(a.targets[0].id)
+        elif isinstance(a, ast.AnnAssign) and isinstance(a.target, ast.Name) and a.value is not None:
+            if holds(a.value, st):
+                gen.add(a.target.id)
+        elif isinstance(a, ast.AugAssign) and isinstance(a.target, ast.Name) and isinstance(a.op, ast.Add):
+            if a.target.id in st:
+                keep.add(a.target.id)
+            elif holds(a.value, st):
+                gen.add(a.target.id)
+        elif isinstance(a, ast.Expr) and isinstance(a.value, ast.Call) and isinstance(a.value.func, ast.Attribute) \
+                and isinstance(a.value.func.value, ast.Name) and not a.value.keywords:
+            c = a.value
+            x = c.func.value.id
+            if (c.func.attr == 'append' and len(c.args) == 1 and is_cm(c.args[0])) or (c.func.attr == 'insert' and len(c.args) == 2 and is_cm(c.args[1])) \
+                    or (c.func.attr == 'extend' and len(c.args) == 1 and holds(c.args[0], st)):
+                gen.add(x)
+        kill = set()
+        for x in n.walk():
+            if isinstance(x, ast.Name) and not isinstance(x.ctx, ast.Load):
+                kill.add(x.id)
+            elif isinstance(x, ast.Call) and isinstance(x.func, ast.Attribute) and isinstance(x.func.value, ast.Name) and x.func.attr in _CONTAINER_DROPS:
+                kill.add(x.func.value.id)
+            elif isinstance(x, ast.Subscript) and isinstance(x.value, ast.Name) and not isinstance(x.ctx, ast.Load):
+                kill.add(x.value.id)
+        if n.kind == 'handler' and getattr(n.ast, 'name', None):
+            kill.add(n.ast.name)
+        if label == 'exc':
+            # the statement did not complete: nothing generated; a binding may or may not have happened
+            return frozenset(st - (kill - keep))
+        return frozenset((st - (kill - keep)) | gen)
+
+    IN = {cn.id: frozenset()}
+    work = [cn.id]
+    while work:
+        x = work.pop()
+        for (y, l) in cfg.succ[x]:
+            if x == cn.id and l == 'exc':
+                continue     # the constructor raised: no instance exists
+            out = transfer(cfg.node(x), IN[x], l)
+            new = out if y not in IN else (IN[y] & out)
+            if y not in IN or new != IN[y]:
+                IN[y] = new
+                work.append(y)
+    if an.id not in IN:
+        raise UnknownIdiom('App.__init__: the add_middleware call is not reachable from the CORSMiddleware construction')
+    names = {x.id for x in ast.walk(arg) if isinstance(x, ast.Name)}
+    lacking = {nid for nid, st in IN.items() if not (names & st)}
+    return holds(arg, IN[an.id]), lacking
+
+
 def _wiring(run):
     p = run.project
     f = p.func('falcon.app.App.__init__')
@@ -581,34 +665,22 @@ def _wiring(run):
              if l in ('T', 'F') and implied(n.ast, l == 'T', is_flag) is True]
     run.check(cn.id not in flow.reachable(cfg, [cfg.entry], avoid_edges=edges),
               'the CORSMiddleware instance is created only under a truthy cors_enable', f, call)
-    # the add_middleware call and the variable handed to it
+    # the add_middleware call and the value handed to it
     adds = [(n, c) for n in cfg.live_nodes() for c in n.calls() if dotted(c.func) == 'self.add_middleware']
-    if len(adds) != 1 or not adds[0][1].args or not isinstance(adds[0][1].args[0], ast.Name):
-        raise UnknownIdiom('App.__init__: expected one self.add_middleware(<name>) call')
+    if len(adds) != 1 or len(adds[0][1].args) != 1 or adds[0][1].keywords or isinstance(adds[0][1].args[0], ast.Starred):
+        raise UnknownIdiom('App.__init__: expected one self.add_middleware(<components>) call')
     an, acall = adds[0]
-    mwvar = acall.args[0].id
     cmvar = None
     if isinstance(cn.ast, ast.Assign) and cn.ast.value is call and len(cn.ast.targets) == 1 and isinstance(cn.ast.targets[0], ast.Name):
         cmvar = cn.ast.targets[0].id
-
-    def carries(e):
-        return any((cmvar is not None and isinstance(x, ast.Name) and x.id == cmvar) or x is call for x in walk_self(e))
-
-    incl = set()
-    for n in cfg.live_nodes():
-        if n.kind != 'stmt':
-            continue
-        a = n.ast
-        if isinstance(a, ast.Assign) and any(isinstance(tg, ast.Name) and tg.id == mwvar for tg in a.targets) and isinstance(a.value, (ast.List, ast.Tuple)) and any(carries(e) for e in a.value.elts):
-            incl.add(n.id)
-        elif isinstance(a, ast.AugAssign) and isinstance(a.target, ast.Name) and a.target.id == mwvar and isinstance(a.op, ast.Add) and carries(a.value):
-            incl.add(n.id)
-        elif isinstance(a, ast.Expr) and isinstance(a.value, ast.Call) and isinstance(a.value.func, ast.Attribute) \
-                and a.value.func.attr in ('append', 'insert') and isinstance(a.value.func.value, ast.Name) and a.value.func.value.id == mwvar \
-                and a.value.args and carries(a.value.args[-1]):
-            incl.add(n.id)
-    path = flow.find_path(cfg, [y for (y, l) in cfg.succ[cn.id] if l != 'exc'], [an.id], avoid_nodes=incl)
-    run.check(path is None, 'under cors_enable the constructed instance is part of the middleware handed to add_middleware on every path',
+        if sum(1 for x in ast.walk(f.node) if isinstance(x, ast.Name) and x.id == cmvar and not isinstance(x.ctx, ast.Load)) != 1:
+            raise UnknownIdiom('App.__init__: the local %s holding the CORSMiddleware instance is bound more than once' % cmvar)
+    held, lacking = _holds_instance(cfg, cn, an, acall.args[0], cmvar, call)
+    path = None
+    if not held:
+        path = flow.find_path(cfg, [y for (y, l) in cfg.succ[cn.id] if l != 'exc'], [an.id],
+                              avoid_nodes=[n.id for n in cfg.live_nodes() if n.id not in lacking and n.id != an.id])
+    run.check(held, 'under cors_enable the constructed instance is part of the middleware handed to add_middleware on every path',
               f, acall, witness=flow.describe_path(cfg, path) if path else None,
               runtime_witness='App(cors_enable=True, middleware=<single component>) without any CORS headers')
     stores = [n for n in cfg.live_nodes() if n.kind == 'stmt' and isinstance(n.ast, ast.Assign)
@@ -618,24 +690,152 @@ def _wiring(run):
     for s in stores:
         run.check(isinstance(s.ast.value, ast.Name) and s.ast.value.id == 'cors_enable' and flow.dominated_by_nodes(cfg, an.id, [s.id]),
                   'the flag tested by add_middleware is the cors_enable argument, stored before the first add_middleware call', f, s.ast)
-    # add_middleware rejects a second instance before extending the list
+    _duplicate_refusal(run)
+
+
+# ---------------------------------------------------------------------------
+# R4: the duplicate-CORS refusal of App.add_middleware, read through locals and helpers
+# ---------------------------------------------------------------------------
+
+def _single_return_expr(h: Func):
+    body = [s for s in h.node.body if not (isinstance(s, ast.Expr) and isinstance(s.value, ast.Constant)) and not isinstance(s, ast.Pass)]
+    if len(body) == 1 and isinstance(body[0], ast.Return) and body[0].value is not None:
+        return body[0].value
+    return None
+
+
+def _bind_call(h: Func, c: ast.Call, bound_self: bool):
+    """parameter name -> argument expression of the call `c` of `h` (defaults filled in), or None when the binding is not plain"""
+    a = h.node.args
+    if a.vararg or a.kwarg or any(isinstance(x, ast.Starred) for x in c.args) or any(k.arg is None for k in c.keywords):
+        return None
+    allpos = [x.arg for x in a.posonlyargs + a.args]
+    names = allpos[1:] if bound_self else allpos
+    if bound_self and not allpos:
+        return None
+    kwonly = [x.arg for x in a.kwonlyargs]
+    if len(c.args) > len(names):
+        return None
+    m = dict(zip(names, c.args))
+    for k in c.keywords:
+        if k.arg in m or k.arg not in names + kwonly:
+            return None
+        m[k.arg] = k.value
+    if a.defaults:
+        for n, d in zip(allpos[len(allpos) - len(a.defaults):], a.defaults):
+            m.setdefault(n, d)
+    for n, d in zip(kwonly, a.kw_defaults):
+        if d is not None:
+            m.setdefault(n, d)
+    if any(n not in m for n in names + kwonly):
+        return None
+    return m
+
+
+class _Expander:
+    """Reads a branch condition of `fn` through (a) locals bound by exactly ONE plain assignment that dominates the reading node (replaced
+    by the assigned expression), (b) parameters never rebound in `fn` for which the caller's argument is known (`argmap`), (c) calls of
+    same-module helpers (a same-class method called on self, a module-level function) whose body is one ``return <expr>`` (replaced by
+    that expression over the arguments).  The result is only ever used to ask WHAT a condition talks about and what its outcome implies
+    for an atom; anything that is not expanded simply stays as it is."""
+
+    def __init__(self, p, fn: Func, cfg, argmap=None):
+        self.p, self.fn, self.cfg = p, fn, cfg
+        self.argmap = dict(argmap or {})
+        self.stores: Dict[str, int] = {}
+        for x in ast.walk(fn.node):
+            if isinstance(x, ast.Name) and not isinstance(x.ctx, ast.Load):
+                self.stores[x.id] = self.stores.get(x.id, 0) + 1
+            elif isinstance(x, ast.ExceptHandler) and x.name:
+                self.stores[x.name] = self.stores.get(x.name, 0) + 2
+        self.params = set(fn.params())
+        self.defs: Dict[str, tuple] = {}
+        if cfg is not None:
+            for n in cfg.live_nodes():
+                if n.kind != 'stmt' or n.copy:
+                    continue
+                a = n.ast
+                if isinstance(a, ast.Assign) and len(a.targets) == 1 and isinstance(a.targets[0], ast.Name):
+                    self.defs.setdefault(a.targets[0].id, []).append((n.id, a.value))
+                elif isinstance(a, ast.AnnAssign) and isinstance(a.target, ast.Name) and a.value is not None:
+                    self.defs.setdefault(a.target.id, []).append((n.id, a.value))
+
+    def _local(self, name, at):
+        if name in self.params or self.stores.get(name) != 1 or len(self.defs.get(name, ())) != 1:
+            return None
+        nid, value = self.defs[name][0]
+        if nid == at or not flow.dominated_by_nodes(self.cfg, at, [nid]):
+            return None
+        return nid, value
+
+    def _inline(self, call: ast.Call, depth):
+        t = self.p.callee(self.fn, call)
+        if not isinstance(t, Func) or t.is_async or t.module is not self.fn.module or t.node is self.fn.node:
+            return None
+        ret = _single_return_expr(t)
+        if ret is None:
+            return None
+        bound_self = isinstance(call.func, ast.Attribute) and isinstance(call.func.value, ast.Name) and call.func.value.id == 'self' and t.cls is not None
+        if isinstance(call.func, ast.Attribute) and not bound_self:
+            return None
+        if bound_self and (not t.params() or t.params()[0] != 'self'):
+            return None
+        m = _bind_call(t, call, bound_self)
+        if m is None:
+            return None
+        inner = _Expander(self.p, t, None, m)
+        return inner.expand(ret, None, depth + 1)
+
+    def expand(self, e, at, depth=0):
+        import copy
+        if depth > 5:
+            return e
+        ex = self
+
+        class T(ast.NodeTransformer):
+            def visit_Name(s, n):
+                if not isinstance(n.ctx, ast.Load):
+                    return n
+                if n.id in ex.argmap and n.id in ex.params and ex.stores.get(n.id, 0) == 0:
+                    return copy.deepcopy(ex.argmap[n.id])
+                if ex.cfg is not None and at is not None:
+                    loc = ex._local(n.id, at)
+                    if loc is not None:
+                        return ex.expand(loc[1], loc[0], depth + 1)
+                return n
+
+            def visit_Call(s, n):
+                # argument expressions are read in the caller's terms first; then the helper's own expression over them
+                n2 = ast.Call(func=n.func, args=[s.visit(a) for a in n.args],
+                              keywords=[ast.keyword(arg=k.arg, value=s.visit(k.value)) for k in n.keywords])
+                r = ex._inline(n2, depth)
+                if r is not None:
+                    return r
+                n2.func = s.visit(n.func) if not isinstance(n.func, ast.Name) else n.func
+                return n2
+
+        return ast.fix_missing_locations(T().visit(copy.deepcopy(e)))
+
+
+def _duplicate_refusal(run):
+    """add_middleware rejects a second CORSMiddleware instance under cors_enable before it extends the registered list.  The test may sit in
+    add_middleware itself or in ONE same-module helper (same-class method / module-level function) that add_middleware calls; conditions are
+    read through single-assignment locals and one-expression helpers (_Expander)."""
+    p = run.project
     g = p.func('falcon.app.App.add_middleware')
     gcfg = cfg_of(g, p)
     run.use_cfg(gcfg)
 
-    def mentions_cors_class(e):
+    def mentions_cors_class(fn, e):
         for x in ast.walk(e):
             if isinstance(x, ast.Call) and isinstance(x.func, ast.Name) and x.func.id == 'isinstance' and len(x.args) == 2:
-                q = p.resolve_expr(g.module, x.args[1], g)
-                if q == CORS_CLASS:
+                if p.resolve_expr(fn.module, x.args[1], fn) == CORS_CLASS:
                     return True
         return False
 
     def is_flag_attr(e):
         return is_self_attr(e, '_cors_enable')
 
-    cors_tests = [n for n in gcfg.live_nodes() if n.kind == 'test' and mentions_cors_class(n.ast)]
-    tests = [n for n in cors_tests if any(is_flag_attr(x) for x in ast.walk(n.ast))]
     writers = [n for n in gcfg.live_nodes() if n.kind == 'stmt' and (
         (isinstance(n.ast, ast.AugAssign) and is_self_attr(n.ast.target, '_unprepared_middleware'))
         or (isinstance(n.ast, ast.Assign) and any(is_self_attr(tg, '_unprepared_middleware') for tg in n.ast.targets))
@@ -643,9 +843,43 @@ def _wiring(run):
     if not writers:
         raise AnchorError('App.add_middleware: no writer of _unprepared_middleware')
 
+    # where the test lives: add_middleware itself, or a helper it calls
+    h, hcfg, argmap, via = g, gcfg, {}, None
+    gx = _Expander(p, g, gcfg)
+    if not any(n.kind == 'test' and mentions_cors_class(g, gx.expand(n.ast, n.id)) for n in gcfg.live_nodes()):
+        cands = []
+        for n in gcfg.live_nodes():
+            for c in n.calls():
+                t = p.callee(g, c)
+                if isinstance(t, Func) and t.module is g.module and not t.is_async and t.node is not g.node \
+                        and any(isinstance(x, ast.Raise) for x in walk_self(t.node)) and mentions_cors_class(t, t.node):
+                    cands.append((n, c, t))
+        if not cands:
+            raise AnchorError('App.add_middleware: no test over self._cors_enable and isinstance(_, CORSMiddleware)')
+        if len(cands) > 1:
+            raise UnknownIdiom('App.add_middleware: several helpers test isinstance(_, CORSMiddleware)')
+        via, c, h = cands[0]
+        bound_self = isinstance(c.func, ast.Attribute) and isinstance(c.func.value, ast.Name) and c.func.value.id == 'self'
+        if isinstance(c.func, ast.Attribute) and not (bound_self and h.params()[:1] == ['self']):
+            raise UnknownIdiom('App.add_middleware: receiver of %s' % short(c))
+        argmap = _bind_call(h, c, bound_self)
+        if argmap is None:
+            raise UnknownIdiom('App.add_middleware: arguments of %s' % short(c))
+        argmap = {k: gx.expand(v, via.id) for k, v in argmap.items()}
+        hcfg = cfg_of(h, p)
+        run.use_cfg(hcfg)
+        if any(is_self_attr(x, '_unprepared_middleware') and not isinstance(x.ctx, ast.Load) for x in ast.walk(h.node)):
+            raise UnknownIdiom('%s rebinds the registered-middleware list' % h.qual)
+    hx = _Expander(p, h, hcfg, argmap) if h is not g else gx
+    X = {n.id: hx.expand(n.ast, n.id) for n in hcfg.live_nodes() if n.kind == 'test'}
+    test_nodes = [n for n in hcfg.live_nodes() if n.kind == 'test']
+    cors_tests = [n for n in test_nodes if mentions_cors_class(h, X[n.id])]
+    tests = [n for n in cors_tests if any(is_flag_attr(x) for x in ast.walk(X[n.id]))]
+    goals = ([w.id for w in writers] if h is g else []) + [hcfg.exit]
+
     def only_raises(tn):
-        t_succ = [y for (y, l) in gcfg.succ[tn.id] if l == 'T']
-        return bool(t_succ) and flow.find_path(gcfg, t_succ, [w.id for w in writers] + [gcfg.exit], edge_filter=flow.no_exc) is None
+        t_succ = [y for (y, l) in hcfg.succ[tn.id] if l == 'T']
+        return bool(t_succ) and flow.find_path(hcfg, t_succ, goals, edge_filter=flow.no_exc) is None
 
     # the refusal is the counterpart of cors_enable (which already constructs one instance): it applies only under the flag.
     # Every test over isinstance(_, CORSMiddleware) whose true branch only raises must imply a truthy self._cors_enable on that
@@ -654,48 +888,58 @@ def _wiring(run):
     tests = tests + [n for n in refusing if n not in tests]
     if not tests:
         raise AnchorError('App.add_middleware: no test over self._cors_enable and isinstance(_, CORSMiddleware)')
-    flag_edges = [(n.id, y, l) for n in gcfg.live_nodes() if n.kind == 'test' for (y, l) in gcfg.succ[n.id]
-                  if l in ('T', 'F') and implied(n.ast, l == 'T', is_flag_attr) is True]
-    read_flag = {id(x) for n in gcfg.live_nodes() if n.kind == 'test' for x in ast.walk(n.ast) if is_flag_attr(x)}
+    flag_edges = [(n.id, y, l) for n in test_nodes for (y, l) in hcfg.succ[n.id]
+                  if l in ('T', 'F') and implied(X[n.id], l == 'T', is_flag_attr) is True]
+    # ... in the caller too, when the test sits in a helper: the helper call may itself be guarded by the flag
+    g_flag_edges = [(n.id, y, l) for n in gcfg.live_nodes() if n.kind == 'test' for (y, l) in gcfg.succ[n.id]
+                    if l in ('T', 'F') and implied(gx.expand(n.ast, n.id), l == 'T', is_flag_attr) is True]
+    read_flag = {id(x) for fn_cfg in {id(hcfg): hcfg, id(gcfg): gcfg}.values() for n in fn_cfg.live_nodes() if n.kind == 'test'
+                 for x in ast.walk(n.ast) if is_flag_attr(x)}
     for tn in refusing:
-        ok = implied(tn.ast, True, is_flag_attr) is True or any(flow.dominated_by_edge(gcfg, tn.id, e) for e in flag_edges if e[0] != tn.id)
+        ok = implied(X[tn.id], True, is_flag_attr) is True or any(flow.dominated_by_edge(hcfg, tn.id, e) for e in flag_edges if e[0] != tn.id) \
+            or (via is not None and any(flow.dominated_by_edge(gcfg, via.id, e) for e in g_flag_edges))
         if not ok:
-            elsewhere = [x for x in walk_self(g.node) if is_flag_attr(x) and id(x) not in read_flag]
+            elsewhere = [x for fn in {g.qual: g, h.qual: h}.values() for x in walk_self(fn.node) if is_flag_attr(x) and id(x) not in read_flag]
             if elsewhere:
                 raise UnknownIdiom('App.add_middleware: self._cors_enable is used outside a branch condition; the guard %s cannot be related to it'
                                    % short(tn.ast, 80))
         run.check(ok, 'a second CORSMiddleware is refused only under cors_enable (the refusing branch implies a truthy self._cors_enable); '
-                      'explicitly configured policies are not refused when the flag is off', g, tn.ast,
+                      'explicitly configured policies are not refused when the flag is off', h, tn.ast,
                   runtime_witness='App(middleware=[CORSMiddleware(allow_origins="a"), CORSMiddleware(allow_origins="b")]) raises ValueError '
                                   'although cors_enable is False: the configured policies are never served')
     for tn in tests:
-        t_succ = [y for (y, l) in gcfg.succ[tn.id] if l == 'T']
+        t_succ = [y for (y, l) in hcfg.succ[tn.id] if l == 'T']
         # the true branch cannot reach a writer or the normal exit
-        esc = flow.find_path(gcfg, t_succ, [w.id for w in writers] + [gcfg.exit], edge_filter=flow.no_exc)
-        run.check(esc is None and bool(t_succ), 'a second CORSMiddleware under cors_enable is rejected (the test\'s true branch only raises)', g, tn.ast,
-                  witness=flow.describe_path(gcfg, esc) if esc else None)
+        esc = flow.find_path(hcfg, t_succ, goals, edge_filter=flow.no_exc)
+        run.check(esc is None and bool(t_succ), 'a second CORSMiddleware under cors_enable is rejected (the test\'s true branch only raises)', h, tn.ast,
+                  witness=flow.describe_path(hcfg, esc) if esc else None)
     # the counted population is the already-registered components AND the
     # incoming ones: the instance made by cors_enable sits in the registered
     # list, so counting the new batch alone accepts a second instance that
     # arrives in a later add_middleware() call
     mw_param = g.params()[1] if len(g.params()) > 1 else None
     for tn in tests:
-        names = {x.id for x in ast.walk(tn.ast) if isinstance(x, ast.Name)}
-        sees_registered = any(is_self_attr(x, '_unprepared_middleware') for x in ast.walk(tn.ast))
+        names = {x.id for x in ast.walk(X[tn.id]) if isinstance(x, ast.Name)}
+        sees_registered = any(is_self_attr(x, '_unprepared_middleware') for x in ast.walk(X[tn.id]))
         sees_new = mw_param in names
         if not sees_new:
             # a local derived from the parameter (middleware = list(middleware))
             sees_new = any(isinstance(a, ast.Assign) and any(isinstance(t, ast.Name) and t.id in names for t in a.targets)
                            and any(isinstance(x, ast.Name) and x.id == mw_param for x in ast.walk(a.value)) for a in ast.walk(g.node))
         run.check(sees_registered and sees_new,
-                  'the duplicate-CORS test counts the registered components together with the incoming ones', g, tn.ast,
+                  'the duplicate-CORS test counts the registered components together with the incoming ones', h, tn.ast,
                   runtime_witness='App(cors_enable=True); app.add_middleware(CORSMiddleware(allow_credentials="*")) is accepted: two policies stacked')
     # ... or the flag is known to be off (a guard nested under / chained behind a test of the flag is skipped legitimately)
-    flag_off_edges = [(n.id, y, l) for n in gcfg.live_nodes() if n.kind == 'test' for (y, l) in gcfg.succ[n.id]
-                      if l in ('T', 'F') and implied(n.ast, l == 'T', is_flag_attr) is False]
+    g_flag_off = [(n.id, y, l) for n in gcfg.live_nodes() if n.kind == 'test' for (y, l) in gcfg.succ[n.id]
+                  if l in ('T', 'F') and implied(gx.expand(n.ast, n.id), l == 'T', is_flag_attr) is False]
     for w in writers:
-        ok = any(w.id not in flow.reachable(gcfg, [gcfg.entry], avoid_edges=[(tn.id, y, l) for (y, l) in gcfg.succ[tn.id] if l == 'F'] + flag_off_edges)
-                 for tn in tests)
+        if via is None:
+            ok = any(w.id not in flow.reachable(gcfg, [gcfg.entry], avoid_edges=[(tn.id, y, l) for (y, l) in gcfg.succ[tn.id] if l == 'F'] + g_flag_off)
+                     for tn in tests)
+        else:
+            # the helper returns normally only when its test passed (checked above: the true branch only raises): the writer must lie
+            # behind the helper call's normal return
+            ok = w.id not in flow.reachable(gcfg, [gcfg.entry], avoid_edges=[(via.id, y, l) for (y, l) in gcfg.succ[via.id] if l != 'exc'] + g_flag_off)
         run.check(ok, 'the registered-middleware list is extended only after the duplicate-CORS test passed', g, w.ast)
 
 
